@@ -52,6 +52,11 @@ void ep2_pck(ep2_t r, const ep2_t p) {
 
         fp_prime_back(yValue, p->y[1]);
 
+        /* The sign is that of y_0 when y_1 is zero, as ep2_upk() expects. */
+        if (bn_is_zero(yValue)) {
+            fp_prime_back(yValue, p->y[0]);
+        }
+
         int b = bn_cmp(yValue, halfQ) == RLC_GT;
 
         fp2_copy(r->x, p->x);
